@@ -20,7 +20,8 @@ COMMON_ASSUME = [
 
 prop('C01', 'p32', 'exploration',
      'rapid draws (chunk shapes x requested kind per chunk x key alignment relation x storage form of each operand x op x static/in-place x self); '
-     'a case is non-trivial when both operands are non-empty and share at least one chunk key; distinct = FNV-64 of the full case description (specs, forms, op)',
+     'a case is non-trivial when both operands are non-empty and share at least one chunk key; distinct = FNV-64 of the full case description (specs, forms, op). '
+     'In addition TestC01Matrix ENUMERATES a finite space, partitioned over the shards: every ordered pair of 13 (quick) / 25 (thorough) boundary templates on one aligned chunk (4096/4097 values, full, full-1, 2047/2048 runs, word edges, ...) x requested kinds {natural, run} x {owned, zero-copy shared} per side x with/without unaligned neighbour chunks x 4 ops x {static, in-place}',
      T(4, 2500, 16, 40000),
      'property-based differential testing against an interval-set model (rapid), kinds forced through an independent encoder',
      'generated-input search: every op/form/kind pairing is constructed and compared with an independent model; no proof of absence',
@@ -152,10 +153,11 @@ prop('C08', 'pser', 'exploration',
 prop('C17', 'p64', 'exploration',
      'rapid state machine over a pool of <=5 roaring64 bitmaps with uint64 interval-set models: Add/CheckedAdd/AddInt, Remove/CheckedRemove, AddMany (bursts), AddRange/RemoveRange/Flip in place and static Flip with ranges that cross zero, one or two 2^32 borders (incl. whole buckets, ragged ends, start>=end), static and in-place And/Or/Xor/AndNot (incl. self), '
      'AndCardinality/OrCardinality/Intersects/Equals, FastOr/FastAnd/ParOr (workers 0..7), Clone, SetCopyOnWrite, RunOptimize, CloneCopyOnWriteContainers; a query rule checks Minimum/Maximum/Contains/Rank/Select, an Iterator HasNext/Next/PeekNext/AdvanceIfNeeded program, ReverseIterator, ManyIterator buffer sequences, Values/Backward. '
-     'Buckets from {0,1,2,0x7FFFFFFF,0xFFFFFFFE,0xFFFFFFFF}; every member compared with its model after every step (whole-bucket members: when changed and every 8th step); any panic is a violation. Non-trivial = some member spans >=2 buckets and >=1 operation touched >=2 buckets; distinct = FNV-64 of the op list',
+     'Buckets from {0,1,2,0x7FFFFFFF,0xFFFFFFFE,0xFFFFFFFF}; every member compared with its model after every step (whole-bucket members: when changed and every 8th step); any panic is a violation. Non-trivial = some member spans >=2 buckets and >=1 operation touched >=2 buckets; distinct = FNV-64 of the op list. '
+     'TestC17Agg: FastOr/FastAnd/ParOr over lists of 0..6 roaring64 bitmaps whose buckets fall in a common window of 1..70 buckets at the bottom, middle or very top (ending at 0xFFFFFFFF) of the bucket space, ParOr with every worker count in {0,1,2,3,4,7,16}, vs the model fold',
      T(8, 120, 16, 2500),
      'model-based stateful property testing against a uint64 interval-set model (rapid state machine)',
-     'generated histories compared step by step with a model', 'trusted: interval-set model; independent 64-bit decoder for whole-bucket contents', SER_ASSUME, run='^TestC17$')
+     'generated histories compared step by step with a model', 'trusted: interval-set model; independent 64-bit decoder for whole-bucket contents', SER_ASSUME, run='^TestC17(Agg)?$')
 
 prop('C18', 'p64', 'fault_enumeration',
      'per rapid-generated roaring64 bitmap (0..3 buckets from {0,1,2,0x7FFFFFFF,0xFFFFFFFE,0xFFFFFFFF}, then 0-4 range mutations): writers agree (ToBytes/WriteTo/MarshalBinary/ToBase64), size == GetSerializedSizeInBytes == n, an independent decoder of the 64-bit layout reads the bytes back to the model, '
